@@ -179,6 +179,24 @@ fn real_main(args: &[String]) -> i32 {
             println!("C03 run: {:?} steps={} violation={:?} detail={}", t.elapsed(), r.steps, r.report.violation, r.report.detail);
             0
         }
+        "timekink" => {
+            // debug: cost of the library (outside the simulation) on heavily kinked diagrams
+            let k: usize = args[2].parse().unwrap();
+            let sd: u64 = args[3].parse().unwrap();
+            let nested = args.get(4).map(|s| s == "nested").unwrap_or(false);
+            let mut rng = yui_verif_rt::Rng::new(sd);
+            let mut pd = crate::diag::table("3_1");
+            for _ in 0..k {
+                let es = if nested { refmodel::link::Diagram::from_pd(&pd).edges() } else { (1..=6u32).collect() };
+                pd = crate::diag::add_kink(&pd, *rng.pick(&es), rng.below(4) as u32);
+            }
+            let pd = crate::diag::permute_crossings(&mut rng, &pd);
+            let t = std::time::Instant::now();
+            let l = crate::khcommon::link_of(&pd);
+            let hh: i64 = std::env::var("KH_H").ok().and_then(|s| s.parse().ok()).unwrap_or(0); let kh = yui_kh::kh::KhHomology::<i64>::new(&l, &hh, &0, false);
+            println!("k={k} crossings={} time={:?} {}", pd.len(), t.elapsed(), crate::khcommon::describe_graded(&crate::khcommon::graded_of(&kh).unwrap()));
+            0
+        }
         "one" => {
             let Some(check) = check_by_id(&args[2]) else { return 2 };
             let tier = arg(args, "--tier").unwrap_or("quick").to_string();
